@@ -46,6 +46,7 @@ type CtlConfig struct {
 	GatewayA2                bool     `json:"gateway_a2,omitempty"`
 	TCPConfigMap             bool     `json:"tcp_configmap,omitempty"`
 	DisableExternalName      bool     `json:"disable_external_name,omitempty"`
+	TrackOldInstances        bool     `json:"track_old_instances,omitempty"`
 }
 
 const (
@@ -115,6 +116,7 @@ func (cc *CtlConfig) build(prefix string, scheme *runtime.Scheme, ctx context.Co
 	if cc.TCPConfigMap {
 		cfg.TCPConfigMapName = tcpConfigMapName
 	}
+	cfg.TrackOldInstances = cc.TrackOldInstances
 	if cc.Acme {
 		cfg.AcmeServer = true
 		cfg.AcmeCheckPeriod = 24 * time.Hour
@@ -165,6 +167,23 @@ func (r *Run) StartController() (*Controller, error) {
 		r.acmeInstall(c)
 	}
 	reconciler.SimReconcileHook = func(fullsync bool) { r.curFullItem = fullsync }
+	reconciler.SimBatchTakenHook = func(objs []string) {
+		r.bmu.Lock()
+		defer r.bmu.Unlock()
+		for _, o := range objs {
+			r.batchTaken[o]++
+		}
+	}
+	services.SimBatchDeliveredHook = func(objs []string) {
+		r.bmu.Lock()
+		defer r.bmu.Unlock()
+		if r.rt.Quiet {
+			return // a fresh pipeline of an oracle, not the controller under test
+		}
+		for _, o := range objs {
+			r.batchDelivered[o]++
+		}
+	}
 	for _, rn := range c.mgr.runnables {
 		rn := rn
 		if strings.Contains(fmt.Sprintf("%T", rn), "svcAcmeServer") {
